@@ -269,6 +269,34 @@ def _loaded(task):
     return out
 
 
+def _damaged_loaded(task):
+    """Copies of a file with one word of one of its first lines blanked, or one of those lines deleted: whenever such a file still
+    loads, the declared guarantees hold for the result as well (a reader that accepts less must not promise more)."""
+    path, fmt, many = task
+    import re as _re
+    text = open(path, errors="replace").read()
+    lines = text.splitlines(keepends=True)
+    tmp = tempfile.mkdtemp(prefix="c17d_")
+    out = []
+    try:
+        variants = []
+        for i in range(min(5, len(lines))):
+            variants.append(lines[:i] + lines[i + 1:])
+            for m in list(_re.finditer(r"\S+", lines[i]))[:6]:
+                new = lines[i][:m.start()] + " " * (m.end() - m.start()) + lines[i][m.end():]
+                variants.append(lines[:i] + [new] + lines[i + 1:])
+        for k, v in enumerate(variants):
+            p = os.path.join(tmp, f"v{k}_" + os.path.basename(path))
+            with open(p, "w") as fh:
+                fh.writelines(v)
+            for e in _loaded((p, fmt, many)):
+                e["file"] = f"{os.path.basename(path)} (damaged copy {k})"
+                out.append(e)
+        return out
+    finally:
+        shutil.rmtree(tmp, ignore_errors=True)
+
+
 def _generated_loaded(task):
     fmt, seed = task
     from iodata import api
@@ -351,6 +379,12 @@ def check(run: Run):
         if hasattr(FORMAT_MODULES[fmt], "load_many"):
             ltasks.append((p, fmt, True))
     for sub in pmap(_loaded, ltasks):
+        events += sub
+    dtasks = [t for t in ltasks if os.path.getsize(t[0]) < 200000]
+    if not run.thorough():
+        seenf = {}
+        dtasks = [t for t in dtasks if seenf.setdefault((t[1], t[2]), []).append(t) or len(seenf[(t[1], t[2])]) <= 2]
+    for sub in pmap(_damaged_loaded, dtasks, chunksize=1):
         events += sub
     for sub in pmap(_generated_loaded, [(f, run.seed * 100 + i) for f in O.DUMP_ONE for i in range(run.pick(3, 20))]):
         events += sub
